@@ -8,6 +8,7 @@ import HdVerif.Generated.TC03imgvol
 import HdVerif.Generated.TC03wireV
 import HdVerif.Generated.TC03wireI
 import HdVerif.Generated.TC03wireS
+import HdVerif.Generated.TC03single
 /-! # Geometry of derived images (C03)
 
 Executable model over `Rat` of how highdicom places a derived image in space:
@@ -129,7 +130,13 @@ structure Stack where
   psCol : Rat
   hint : Option Rat
   pos : List V3
+  /-- channel of each frame as `get_volume` distinguishes frames beyond their position (ReferencedSegmentNumber of a
+  BINARY / FRACTIONAL segmentation); `[]` = one channel (images, label maps) -/
+  chan : List Nat := []
 deriving Repr
+
+/-- the same stack with the frames' channels given -/
+def withChan (st : Stack) (c : List Nat) : Stack := { st with chan := c }
 
 /-- `get_plane_positions()[k]` = `map_indices_to_reference([[k, 0, 0]])` -/
 def planePosition (g : Geom) (k : Nat) : V3 := g.aff.apply (k : Int) 0 0
@@ -182,14 +189,22 @@ def isPerp (n span : V3) : Bool :=
   let m := dot span span
   (1 - tolPerp) * (1 - tolPerp) * m < q && q < (1 + tolPerp) * (1 + tolPerp) * m
 
-/-- smallest and largest distance along the normal, and the first positions attaining them
-(`unique_positions[sort_index[0]]`, `unique_positions[sort_index[-1]]`) -/
+/-- lexicographic order of positions (`np.unique(axis=0)` sorts the rows this way) -/
+def lexLe (a b : V3) : Bool :=
+  a.x < b.x || (a.x == b.x && (a.y < b.y || (a.y == b.y && a.z ≤ b.z)))
+def lexMin (a : V3) (l : List V3) : V3 := l.foldl (fun m p => if lexLe m p then m else p) a
+def lexMax (a : V3) (l : List V3) : V3 := l.foldl (fun m p => if lexLe m p then p else m) a
+
+/-- smallest and largest distance along the normal, and the positions `unique_positions[sort_index[0]]`,
+`unique_positions[sort_index[-1]]`: the unique positions are in lexicographic order and the sort by distance keeps
+that order among equal distances, so these are the lexicographically smallest position at the smallest distance
+and the lexicographically largest at the largest distance -/
 def extremes (pos : List V3) (n p0 : V3) : Option (Rat × Rat × V3 × V3) :=
   let ds := pos.map (dot n)
   let dmin := listMin (dot n p0) ds
   let dmax := listMax (dot n p0) ds
-  match pos.find? (fun p => dot n p == dmin), pos.find? (fun p => dot n p == dmax) with
-  | some p1, some p2 => some (dmin, dmax, p1, p2)
+  match pos.filter (fun p => dot n p == dmin), pos.filter (fun p => dot n p == dmax) with
+  | a :: t, b :: u => some (dmin, dmax, lexMin a t, lexMax b u)
   | _, _ => none
 
 /-- `allow_missing_positions=True`: spacing is the hint (or the smallest gap), every distance must be a
@@ -372,12 +387,24 @@ structure VolOut where
   colFirst : Int
 deriving Repr
 
+def allDistinct {α : Type} [DecidableEq α] : List α → Bool
+  | [] => true
+  | a :: t => !t.contains a && allDistinct t
+
+/-- `_do_columns_identify_unique_frames`: `Image.get_volume` needs pairwise different frame positions,
+`Segmentation.get_volume` pairwise different (position, segment) pairs (positions alone for a label map) -/
+def framesUnique (k : Kind) (st : Stack) : Bool :=
+  match k with
+  | .image => allDistinct st.pos
+  | .seg => if st.chan.length == st.pos.length then allDistinct (st.pos.zip st.chan) else allDistinct st.pos
+
 /-- stacked branch of `Image.get_volume` / `Segmentation.get_volume` (`k` selects whose translated slicing
 expressions are used): the pixel array is cut with numpy slicing, the affine is that of the sliced geometry -/
 def getVolumeStack (k : Kind) (st : Stack) (rows cols : Int) (allowMissing : Bool) (rq : Request) : Except ErrKind VolOut :=
   match stdRowColIndices rq.rowStart rq.rowEnd rq.colStart rq.colEnd rows cols rq.asIdx true with
   | .error e => .error e
   | .ok (rs, re, cs, ce) =>
+    if !(framesUnique k st) then .error .runtime else
     match stackedGeometry st rows cols allowMissing rq.sliceStart rq.sliceEnd rq.asIdx with
     | .error e => .error e
     | .ok sg =>
@@ -425,11 +452,12 @@ def tiledVolume (k : Kind) (origin rowCos colCos : V3) (psRow psCol : Rat) (sbs 
 /-- SpacingBetweenSlices a segmentation records (seg/sop.py, "Automatically populate the spacing between
 slices"): the source's own value when its pixel measures carry one, otherwise what `get_volume_positions`
 (defaults: sort, no missing, no duplicates, no hint) infers from ALL source plane positions before empty planes
-are removed; nothing when they do not form a regular stack. -/
+are removed; nothing when they do not form a regular stack, and nothing for a single plane. -/
 def recordedHint (srcHint : Option Rat) (allPos : List V3) (rowCos colCos : V3) : Except ErrKind (Option Rat) :=
   match srcHint with
   | some h => .ok (some h)
   | none =>
+    if allPos.length ≤ 1 then .ok none else
     match volumePositions allPos rowCos colCos none false false with
     | .error e => .error e
     | .ok none => .ok none
@@ -475,6 +503,21 @@ def recordedTiledOrigin (user src : V3) (sameOrientation sameSpacing sameTiles :
 /-- `get_volume_geometry()` of a stacked image: the default request of `_get_stacked_volume_geometry` -/
 def volumeGeometryStack (st : Stack) (rows cols : Int) (allowMissing : Bool) : Except ErrKind StackGeom :=
   stackedGeometry st rows cols allowMissing none none false
+
+/-- `get_volume_geometry()` of a single-frame image (its own branch of `_get_volume_geometry`): position,
+orientation and pixel spacing of the image, slice spacing from the translated `Gen.singleFrameSpacing` applied to
+`self.get('SpacingBetweenSlices', 1.0)` -/
+def volumeGeometrySingle (p rowCos colCos : V3) (psRow psCol : Rat) (sbs : Option Rat) : Except ErrKind Aff :=
+  match singleFrameSpacing (defaultSpacing sbs) with
+  | .error e => .error e
+  | .ok sp => fromAttributes p rowCos colCos psRow psCol sp
+
+/-- what a tiled segmentation records when it is built from the SLIDE volume `g` over a source whose total pixel
+matrix origin is `src`: the volume's orientation and measures, and the origin the constructor decides on -/
+def storeTiledFrom (g : Geom) (src : V3) (sameOrientation sameSpacing sameTiles : Bool) : Except ErrKind TiledAttrs :=
+  match recordedTiledOrigin (planePosition g 0) src sameOrientation sameSpacing sameTiles with
+  | .error e => .error e
+  | .ok o => .ok { storeTiled g with origin := o }
 
 /-- `get_volume_geometry()` of a tiled slide image -/
 def volumeGeometryTiled (origin rowCos colCos : V3) (psRow psCol : Rat) (sbs : Option Rat) : Except ErrKind Aff :=
